@@ -170,7 +170,9 @@ def walk (st : St) : List Op → List Out → St
         if r.chans.contains (ch : Int) then
           -- the not-yet-searched tail of the stream so far: its last nsamp−npre samples; they are found
           -- with the new settings when their npre samples of history are still in the retained buffer
-          let post : Nat := (st.nsamp - st.npre).toNat
+          let post : Nat := match c.epochs.head? with
+            | some e => min (st.nsamp - st.npre).toNat (c.g.size - e.start + e.back)   -- never before the previous epoch's own reach
+            | none => (st.nsamp - st.npre).toNat
           let back : Nat := if post + st.npre.toNat ≤ c.ret then post else 0
           { c with epochs := { start := c.g.size, ts := r.ts, npre := st.npre, nsamp := st.nsamp, fromT := true, inherit := false,
                                back := back } :: c.epochs }
@@ -180,7 +182,15 @@ def walk (st : St) : List Op → List Out → St
       if ns ≤ 0 ∨ np ≤ 0 ∨ (ns = st.nsamp ∧ np = st.npre) then walk st ops outs else
       let chans := st.chans.map fun c =>
         let ts := match c.epochs.head? with | some e => e.ts | none => {}
-        { c with epochs := { start := c.g.size, ts := ts, npre := np, nsamp := ns, fromT := false, inherit := true } :: c.epochs }
+        -- as for ConfigureTriggers: the tail of the stream so far that could not be searched yet (its last
+        -- nsamp−npre samples under the OLD lengths; the tail an empty previous epoch had inherited, if no block
+        -- came in between) is searched under the new lengths, when the new pre-trigger history of its first sample
+        -- is still in the retained buffer (trimmed under the old lengths: at least 2·nsamp_old+10 samples)
+        let tail : Nat := match c.epochs.head? with
+          | some e => min (st.nsamp - st.npre).toNat (c.g.size - e.start + e.back)   -- never before the previous epoch's own reach
+          | none => 0
+        let back : Nat := if tail + np.toNat ≤ c.ret then tail else 0
+        { c with epochs := { start := c.g.size, ts := ts, npre := np, nsamp := ns, fromT := false, inherit := true, back := back } :: c.epochs }
       walk { st with chans, npre := np, nsamp := ns } ops outs
     | _, _ => walk st ops outs
 
